@@ -430,7 +430,7 @@ VERIF_TARGET(c04_merkle, init_c04, 32, 420,
     case 11: if (v.vtx.size() >= 2) { size_t idx = 1 + sel_a % (v.vtx.size() - 1); v.vtx.insert(v.vtx.begin() + idx, v.vtx[idx]); changed = true; vname = "tx-repeated-in-place"; } break; // adjacent duplicate, any parity
     default: { // commitment output edited (header root changes with it unless recomputed): recompute the root so only the witness commitment is wrong
         if (committed) {
-            with_tx(0, [&](CMutableTransaction& m) { int p = ref_commit_pos(CTransaction(m)); if (p >= 0) m.vout[p].scriptPubKey[6 + 7] ^= 0x10; });
+            with_tx(0, [&](CMutableTransaction& m) { int p = ref_commit_pos(CTransaction(m)); if (p >= 0) m.vout[p].scriptPubKey[6 + std::vector<size_t>{0, 7, 31, 31}[sel_a & 3]] ^= uint8_t(1u << (sel_b & 7)); }); // any single bit of the 32 commitment bytes, the last byte often
             v.hashMerkleRoot = ref_tree(ref_txids(v)).root;
             changed = true; vname = "commitment-bytes-wrong";
         }
